@@ -255,7 +255,7 @@ def generate_csrf_tokens() -> CsrfTokenCollection:
         return CsrfTokenCollection(
             streams=CsrfProtection.generate_token('streams', csrf_key),
             files=CsrfProtection.generate_token('files', csrf_key),
-            kids=CsrfProtection.generate_token('kids', csrf_key),
+            kids=CsrfProtection.generate_token('keys', csrf_key),
             upload=CsrfProtection.generate_token('upload', csrf_key))
     return CsrfTokenCollection(
         streams=CsrfProtection.generate_token('streams', csrf_key),
